@@ -401,6 +401,11 @@ def run (P : Params) (onLeave : Bool) (count : Int) (fuel : Nat) (t : Tree) : Re
   let r := if onLeave then leaveNode P fuel t st0 else enterNode P fuel t st0
   ⟨r.1, uniqueOf (clamp count) r.2.count, r.2.total, r.2.err, r.2.log⟩
 
+/-- `FST.sub(pat, repl, nested, count=…, loop=…, on=…, …)`: the public wrapper.  It forwards every parameter to `subn`
+unchanged and returns the first component (`return self.subn(pat, repl, nested, count=count, …)[0]`). -/
+def sub (P : Params) (onLeave : Bool) (count : Int) (fuel : Nat) (t : Tree) : List Tree :=
+  (run P onLeave count fuel t).trees
+
 /-! ## Reference transformer (written independently of the driver) -/
 
 mutual
